@@ -15,6 +15,17 @@ CLAIMED = {
             "Trusts TLC, the JDK SHA-256 behind the Native override (self-tested against vectors on every run), and the "
             "parametricity argument that long division on digit arrays is radix-independent.",
             "DESIGN.md 5/C07"),
+    "C18": ("TLA+ spec NodeQueue.tla: TLC explores all interleavings of the receive-thread actions (MC_NodeQueue); TLC-simulated "
+            "behaviours replayed into the real recv_loop threads under a controlled scheduler; every interleaving of the real "
+            "threads (stateless DFS) recorded as a trace and validated by TLC (Trace_NodeQueue)",
+            "Exhaustive model check of exactly-once / attribution / order / reply clauses for 2x2, 2x3 and 3x2 peers x messages "
+            "(intended discipline), with a self-test config in which the enqueue-then-pop deviation must produce TLC's "
+            "lost-message counterexample; all interleavings of the REAL threads at the granularity recv/test/append/pop/send "
+            "for 44 (quick) / 295 (thorough) scripts plus random 3-peer schedules, each execution accepted by TLC as a behaviour "
+            "of the spec with the property clauses evaluated at every step and on the observed final state.",
+            "Trusts TLC, CPython's threading semantics (parked threads do not run) and that scheduling points are the "
+            "deque/list/socket operations, which the harness intercepts with injected container subclasses; messages arrive whole.",
+            "DESIGN.md 5/C18"),
 }
 NOT_YET = "machinery for this property is not built yet in this round (planned per DESIGN.md section 5)"
 
